@@ -2198,7 +2198,10 @@ class PrefetchDataset(Dataset):
         from lazy_dataset.parallel_utils import lazy_parallel_map
 
         if with_key:
-            iterable = self.keys()
+            try:
+                iterable = input_dataset.keys()
+            except NotImplementedError:
+                raise _ItemsNotDefined(self.__class__.__name__) from None
         else:
             iterable = range(len(self.input_dataset))
 
